@@ -24,7 +24,7 @@ Pyrex', n = 6, bound 3e-6).
 import os, re, json, math, signal, tempfile, itertools
 import ctypes as C
 import numpy as np
-from .. import srctab, common, refdata, xl, execlib
+from .. import srctab, common, refdata, xl, execlib, build
 
 EXTREME = [-2147483648, 2147483647, -65536, 65536]
 SYM_RE = re.compile(r'^[A-Z][a-z]{0,2}$')
@@ -217,6 +217,40 @@ def check_indexed(ck, X, F, tier, tag, lister, getter, macros, prefix):
             else:
                 F.ok(tag + ':macro==entry')
     return names, entries
+
+
+def check_interleaved_lookups(ck, X, F, tag, names, getter, st):
+    """by-name(a), by-index(j), by-name(a) again - for EVERY pair (a, j): the second by-name lookup describes the same entry as the first whatever
+    was looked up by index in between; and a query that is a proper prefix of entry j's name (as long as name a) is refused unless it is itself a
+    name.  A lookup is a function of its argument, not of the lookups before it."""
+    N = len(names)
+    nameset = set(names)
+    key = lambda e: None if is_err(e) else (e['name'], repr(sorted((k, v) for k, v in e.items() if k != 'name')))
+    first = [key(getter(a)) for a in names]
+    n = bad = 0
+    for ia, a in enumerate(names):
+        if first[ia] is None:
+            continue
+        for j in range(N):
+            _step(ck, '%s: by-name(%r), by-index(%d), by-name again' % (tag, a, j)) if (ia * N + j) % 997 == 0 else None
+            getter(a); ej = getter(j); again = key(getter(a)); n += 3
+            if again != first[ia]:
+                bad += 1
+                if bad <= 3:
+                    ck.violation('c15:%s:by-name-depends-on-an-earlier-by-index-lookup' % tag, 'by-name(%r) returns the entry %r right after by-index(%d) = %r was looked up; it returned %r before' % (
+                        a, again and again[0], j, None if is_err(ej) else ej['name'], first[ia][0]), dict(name=a, index=j, indexed_entry=None if is_err(ej) else ej['name']))
+            nj = names[j]
+            if len(nj) > len(a) and nj[:len(a)] != a and nj[:len(a)] not in nameset:
+                q = nj[:len(a)]
+                r = getter(q); n += 1
+                if not is_err(r):
+                    bad += 1
+                    if bad <= 6:
+                        ck.violation('c15:%s:unknown-name-accepted-after-other-lookups' % tag, 'by-name(%r) - no entry of the catalogue - returns the entry %r after by-name(%r) and by-index(%d)' % (q, r['name'], a, j),
+                                     dict(query=q, returned=r['name'], after_name=a, after_index=j))
+    st[tag + '_interleaved_lookups'] = n
+    if not bad:
+        F.ok(tag + ':lookups-independent-of-earlier-lookups', N * N)
 
 
 def check_compound_entries(ck, X, F, entries, syms, st):
@@ -932,6 +966,7 @@ def main(tier):
     def r_nist(c, f, s):
         names, ent = check_indexed(c, X, f, tier, 'nist', X.nist_list, X.nist, nist_mac, 'NIST_COMPOUND_')
         check_compound_entries(c, X, f, ent, syms, s)
+        check_interleaved_lookups(c, X, f, 'nist', names, X.nist, s)
         return dict(names=names, entries=ent)
     pay = run_child(ck, 'c15:catalogue-read:crash:nist', 'reading the NIST compound catalogue', reader(r_nist))
     nist_names, nist = [], {}
@@ -941,6 +976,7 @@ def main(tier):
     def r_nucl(c, f, s):
         names, ent = check_indexed(c, X, f, tier, 'nuclide', X.nuclide_list, X.nuclide, rn_mac, 'RADIO_NUCLIDE_')
         check_nuclide_entries(c, X, f, ent, syms, s)
+        check_interleaved_lookups(c, X, f, 'nuclide', names, X.nuclide, s)
         return dict(names=names, entries=ent)
     pay = run_child(ck, 'c15:catalogue-read:crash:nuclide', 'reading the radionuclide catalogue', reader(r_nucl))
     nucl_names, nucl = [], {}
@@ -959,6 +995,43 @@ def main(tier):
     crystal_names, crystal_vol = [], {}
     if pay:
         _merge(F, st, pay); crystal_names = pay['extra']['names']; crystal_vol = pay['extra']['vol']
+
+    # the catalogues in a host that has selected a national locale (setlocale(LC_ALL, "")): Latin-1 character classes and a collation order that
+    # differs from byte order ('_' before digits and letters).  Names are byte strings: every listed name is still found, under that name, and
+    # the lists are what they were - lookups may not depend on LC_COLLATE / LC_CTYPE of the host
+    locdir = build.locale_dir()
+
+    def r_locale(c, f, s):
+        os.environ['LOCPATH'] = locdir; os.environ['LC_ALL'] = 'xx_COLL'
+        libc = C.CDLL(None); libc.setlocale.restype = C.c_char_p; libc.setlocale.argtypes = [C.c_int, C.c_char_p]
+        import locale as _l
+        got = libc.setlocale(_l.LC_ALL, b'')
+        if not got or b'xx_COLL' not in got or libc.strcoll(b'Si_NIST', b'Si2') >= 0:
+            raise common.Inconclusive('the synthetic collation locale could not be activated: %r' % got)
+        n = 0
+        for tag, lister, getter, want in (('crystal', X.crystal_list, lambda nm: (lambda g: g if is_err(g) else (X.free_crystal(g[0]), g[1])[1])(X.get_crystal(nm)), crystal_names),
+                                          ('nist', X.nist_list, X.nist, nist_names), ('nuclide', X.nuclide_list, X.nuclide, nucl_names)):
+            _step(c, '%s under the national locale' % tag)
+            lst = lister()
+            if is_err(lst) or lst['names'] != want:
+                c.violation('c15:%s:list-depends-on-the-locale-of-the-host' % tag, 'under a national locale the name list differs from the one under the C locale', dict(listed=None if is_err(lst) else lst['names'][:40]))
+                continue
+            for nm in want:
+                e = getter(nm); n += 1
+                if is_err(e) or e['name'] != nm:
+                    c.violation('c15:%s:listed-name-not-found-under-a-national-locale' % tag, 'with LC_COLLATE / LC_CTYPE of a national locale selected by the host, the lookup of the listed name %r gives %r' % (
+                        nm, e if is_err(e) else e['name']), dict(name=nm, locale='xx_COLL'))
+                else:
+                    f.ok(tag + ':found-under-national-locale')
+            for bad in [w + '_' for w in want[:5]] + [w[:-1] for w in want[:5] if len(w) > 1 and w[:-1] not in want] + ['si', 'SI_NIST']:
+                e = getter(bad); n += 1
+                if not is_err(e):
+                    c.violation('c15:%s:unknown-name-accepted-under-a-national-locale' % tag, 'the lookup of %r returns %r under a national locale' % (bad, e['name']), dict(name=bad, locale='xx_COLL'))
+        s['lookups_under_national_locale'] = n
+        return {}
+    pay = run_child(ck, 'c15:catalogue-read:crash:national-locale', 'reading the catalogues under a national locale', reader(r_locale))
+    if pay:
+        _merge(F, st, pay)
 
     if nist:
         i = sorted(nist)[(common.seed() * 37) % len(nist)]
@@ -986,6 +1059,7 @@ def main(tier):
                nuclide_xray_lines=st['nuclide_lines'], crystal_atoms=st['crystal_atoms'],
                entries_compared_with_their_source=dict(nist_table_rows=st.get('source_table_rows'), nist_entries=st.get('copies_compared_with_source_table'),
                                                        crystals_in_data_file=st.get('crystals_in_the_data_file'), crystals=st.get('crystals_compared_with_the_data_file')),
+               lookups_under_a_national_locale=st.get('lookups_under_national_locale'), interleaved_lookups=dict(nist=st.get('nist_interleaved_lookups'), nuclide=st.get('nuclide_interleaved_lookups')),
                deep_copy_sequences=seqs, asan_lookups=st['asan_calls'])
     return ck.finish(cov, ['macro values come from a compiled probe of the public headers; macro names are matched to API names after reducing both '
                            'to upper-case alphanumerics (checked to be injective on the catalogue)',
